@@ -53,14 +53,23 @@ def run(tier, seed, replay):
         for part in ex.map(lambda ch: conc.explore(ch) if ch else [], chunks):
             results += part
     edges, locks, runs, steps, deadlocks, died = set(), {}, 0, 0, [], []
+    cfgs = {}
+
+    def renum(tok, base):
+        return re.sub(r"L(\d+)", lambda m: "L%d" % (base + int(m.group(1))), tok)
+
     for line, r in results:
         if r is None:
             died.append(line); continue
         runs += r["runs"]; steps += r["steps"]
-        edges |= set(r["edges"])
+        # lock names (order of first acquisition in the warm-up) are comparable only between engines of one configuration
+        f = dict(p.split("=", 1) for p in line.split(" ") if "=" in p)
+        key = "persist=%s snap=%s rot=%s" % (f.get("persist", "0"), f.get("snap", "0"), f.get("rot", "0"))
+        base = cfgs.setdefault(key, 100 * len(cfgs))
+        edges |= {renum(e, base) for e in r["edges"]}
         for l in r["locks"]:
             k, v = l.split("=", 1)
-            locks.setdefault(k, v)
+            locks.setdefault(renum(k, base), "%s {%s}" % (v, key))
         if r["deadlock"] not in ("-", ""):
             deadlocks.append((line, r))
     for line, r in deadlocks[:3]:
